@@ -35,8 +35,9 @@ from ..engine.normalize import inline_helpers
 from ..engine.report import AnalysisError, Run
 from ..engine.resolver import FuncInfo, Program, parent_map, walk_no_nested
 from ..engine.util import method_call, node_calls, node_writes, nodes_with_call, reaching_defs
-from ._c12_util import (Folder, alias, bcanon, call_args, deref, edges_establishing, normal,
-                        path_avoiding_edges, pmap, rename, resolve_callable, single_defs, txt)
+from ._c12_util import (Folder, alias, bcanon, call_args, deref, edges_establishing, emptiness, facts, literals,
+                        normal, path_avoiding_edges, pmap, rename, resolve_callable, single_defs, size_subject,
+                        test_edges, txt)
 
 CG = "microgrid.component_graph:_MicrogridComponentGraph"
 GEN = "timeseries.formula_engine._formula_generators"
@@ -76,6 +77,9 @@ class Ctx:
                     raise AnalysisError(f"anchor {cls.qual}.{n} not found")
                 self.sigs[n] = cls.methods[n].params[1:]
         self._prep: dict[str, FuncInfo] = {}
+        self._values: dict[Any, Any] = {}
+        self._defs: dict[int, Any] = {}
+        self._nested: dict[int, dict[str, Any]] = {}
 
     def prep(self, fn: FuncInfo) -> FuncInfo:
         """Statements that were extracted into simple private helpers are spliced back (analysis only)."""
@@ -83,6 +87,11 @@ class Ctx:
             node = inline_helpers(self.prog, fn, exclude=KEEP_CALLEES)
             self._prep[fn.qual] = FuncInfo(fn.name, fn.module, node, fn.cls, fn.outer)
         return self._prep[fn.qual]
+
+    def defs(self, fn: FuncInfo) -> dict[str, ast.AST]:
+        if id(fn.node) not in self._defs:
+            self._defs[id(fn.node)] = (fn, single_defs(fn.node))
+        return self._defs[id(fn.node)][1]
 
     def positional(self, expr: ast.AST) -> ast.AST:
         """Keyword arguments of the known callees moved to their parameter position (in place on a copy)."""
@@ -114,8 +123,16 @@ class Ctx:
 
     def value(self, fn: FuncInfo, defs: dict[str, ast.AST], expr: ast.AST, mapping: dict[str, str] | None = None) -> ast.AST:
         """`expr` inside `fn` as a value: locals substituted, private helpers expanded, aliases unified."""
-        nested = {n.name: n for s in fn.node.body for n in walk_no_nested(s) if isinstance(n, (ast.FunctionDef, ast.AsyncFunctionDef))}
-        return self.norm(self.folder.expr(deref(expr, defs), {}, fn, nested, 0), mapping)
+        key = (id(fn.node), id(expr), id(defs), tuple(sorted((mapping or {}).items())))
+        hit = self._values.get(key)
+        if hit is not None and hit[0] is expr:
+            return hit[1]  # read-only by convention
+        nk = id(fn.node)
+        if nk not in self._nested:
+            self._nested[nk] = {n.name: n for s in fn.node.body for n in walk_no_nested(s) if isinstance(n, (ast.FunctionDef, ast.AsyncFunctionDef))}
+        out = self.norm(self.folder.expr(deref(expr, defs), {}, fn, self._nested[nk], 0), mapping)
+        self._values[key] = (expr, out, fn, defs)  # keeps the keyed objects alive
+        return out
 
     def predicate(self, fn: FuncInfo, graph_self: bool = False) -> tuple[Any, ast.AST]:
         """(canonical form, expression) of what a predicate function returns over `%1`, `%2`, ..."""
@@ -175,7 +192,7 @@ def check_part(run: Run, cx: Ctx) -> None:
     forms["_are_grid_meters"] = (agm, agm.node, c, e)
     for holder, role in (("_gen_with_grid_meter", "non_consumer_component"), ("_gen_without_grid_meter", "consumer_component")):
         h = cx.prep(cons.methods[holder])
-        defs = single_defs(h.node)
+        defs = cx.defs(h)
         calls = cx.graph_dfs_calls(h, defs)
         got_c = cx.dfs_condition(h, defs, calls[0]) if len(calls) == 1 else None
         if got_c is None:  # no (single) graph search with a condition: reported below as "excludes nothing"
@@ -203,12 +220,15 @@ def check_part(run: Run, cx: Ctx) -> None:
               "`non_consumer_component` is not the disjunction of all device chains", node=node, file=fn.file)
     fn, node, c, _e = forms["consumer_component"]
     ok = isinstance(c, tuple) and c[0] == "and" and {("not", chain_atom(k, "%1")) for k in want} <= set(c[1])
+    if ok:  # ... and nothing else than "is a meter or an inverter"
+        rest = set(c[1]) - {("not", chain_atom(k, "%1")) for k in want}
+        ok = len(rest) == 1 and category_set(next(iter(rest)), "%1") == {"METER", "INVERTER"}
     run.check(ok, "C12.PART", fn.qual, "consumer = meter/inverter outside every device chain",
-              "`consumer_component` does not exclude every device chain", node=node, file=fn.file)
+              "`consumer_component` is not `a meter or inverter outside every device chain`", node=node, file=fn.file)
     # producer kinds
     prod = cx.prep(prog.func(f"{GEN}._producer_power_formula:ProducerPowerFormula.generate"))
     run.analysed(prod.qual)
-    defs = single_defs(prod.node)
+    defs = cx.defs(prod)
     calls = cx.graph_dfs_calls(prod, defs)
     pc = cx.dfs_condition(prod, defs, calls[0]) if len(calls) == 1 else None
     got = chain_calls(pc[1]) if pc else set()
@@ -222,11 +242,24 @@ def check_part(run: Run, cx: Ctx) -> None:
               node=cg.node, file=cg.module.rel)
     pv = cx.prep(prog.func(f"{GEN}._pv_power_formula:PVPowerFormula.generate"))
     run.analysed(pv.qual)
-    defs = single_defs(pv.node)
+    defs = cx.defs(pv)
     calls = cx.graph_dfs_calls(pv, defs)
     pc = cx.dfs_condition(pv, defs, calls[0]) if len(calls) == 1 else None
     run.check(pc is not None and pc[0] == chain_atom("is_pv_chain", "%1"), "C12.PART", pv.qual, "PV power searches is_pv_chain",
               "PV power does not search the PV chain", node=pv.node, file=pv.file)
+    # ... and does so whenever no explicit component ids are configured (the default)
+    ok = len(calls) == 1
+    if ok:
+        cfg = CFG(pv.node, pv.file)
+        search = set(cfg.node_containing(calls[0]))
+        ids = "self._config.component_ids"
+        e_none = edges_establishing(cfg, lambda a: emptiness(a) == (ids, True), lambda e: cx.value(pv, defs, e))
+        always = cfg.path(cfg.entry, [cfg.exit], avoid=search, edge_ok=normal) is None
+        ok = bool(search) and (always or (bool(e_none) and all(
+            m in search or cfg.path(m, [cfg.exit], avoid=search, edge_ok=normal) is None for _t, m, _lab in e_none)))
+    run.check(ok, "C12.PART", pv.qual, "no configured ids -> the PV chain is searched",
+              "with no component ids configured the PV components are not taken from the PV-chain search "
+              "(PV power would be the 0 placeholder although the graph has PV inverters)", node=pv.node, file=pv.file)
 
 
 # ------------------------------------------------------------------------------------------------
@@ -274,6 +307,7 @@ def check_meter(run: Run, cx: Ctx) -> None:
         ch = cg.methods.get(f"is_{kind}_chain")
         ok = False
         if ch is not None:
+            run.analysed(ch.qual)
             c, _e = cx.predicate(ch, graph_self=True)
             ok = c == ("or", frozenset({("truthy", f"GRAPH.{leaf}(%1)"), ("truthy", f"GRAPH.is_{kind}_meter(%1)")}))
         run.check(ok, "C12.METER", ch.qual if ch else cg.qual, f"is_{kind}_chain = {leaf} or is_{kind}_meter",
@@ -301,6 +335,12 @@ def check_meter(run: Run, cx: Ctx) -> None:
               "alternatives folded into one `all(a or b or c or d)` a mixed meter (several device kinds plus "
               "unmetered load) would fall back to the sum of its devices and silently drop the load",
               node=mf.node, file=mf.file)
+    # what the function asserts about its argument is exactly what its caller established (checked below)
+    asserts = [bcanon(cx.norm(a.test, pmap(mf))) for a in ast.walk(mf.node) if isinstance(a, ast.Assert)]
+    run.check(all(a == ("==", frozenset({"%1.category", METER})) for a in asserts), "C12.METER", mf.qual,
+              "asserts only that its argument is a meter",
+              "`_get_meter_fallback_components` asserts something its caller does not guarantee: the fallback "
+              "lookup (hence formula generation) fails for every meter", node=mf.node, file=mf.file)
     mfc = cx.prep(fg.methods["_get_metric_fallback_components"])
     run.analysed(mfc.qual)
     run.check(pairing_ok(cx, mfc), "C12.METER", mfc.qual, "meters -> their fallbacks; devices -> their single metering predecessor",
@@ -314,7 +354,7 @@ def pairing_ok(cx: Ctx, fn: FuncInfo) -> bool:
     exactly when `len(predecessors) == 1` and `_is_primary_fallback_pair(predecessor, component)` hold, and
     gets an own empty entry on every other path."""
     cfg = CFG(fn.node, fn.file)
-    defs = single_defs(fn.node)
+    defs = cx.defs(fn)
     if len(fn.params) != 2:
         return False
     heads = [n for n in cfg.nodes if n.kind == "for" and isinstance(n.ast.target, ast.Name)  # type: ignore[union-attr]
@@ -328,7 +368,7 @@ def pairing_ok(cx: Ctx, fn: FuncInfo) -> bool:
     h = heads[0].id
     x = heads[0].ast.target.id  # type: ignore[union-attr]
     entry = [m for m, lab in cfg.succ[h] if lab == "iter"]
-    body = cfg.reachable(entry, avoid=[h], edge_ok=normal)
+    body = cfg.reachable(entry, avoid=[h] + [m for m, lab in cfg.succ[h] if lab == "done"], edge_ok=normal)
     val = lambda e: cx.value(fn, defs, e)  # noqa: E731
     pred = f"GRAPH.predecessors({x}.component_id)"
     pops = (f"{pred}.pop()", f"next(iter({pred}))")
@@ -349,6 +389,9 @@ def pairing_ok(cx: Ctx, fn: FuncInfo) -> bool:
     e_len = edges_establishing(cfg, lambda a: a == ("==", frozenset({"1", f"len({pred})"})), val, within=body)
     t_pair = {e[0] for e in e_pair}
     if not (n_mf and n_own and n_add and e_m and e_nm and e_pair and e_len):
+        return False
+    # every component is looked at: an iteration ends at the loop header, never leaves the loop
+    if not all(m in body or m == h for x in body for m, lab in cfg.succ[x] if normal(x, m, lab)):
         return False
 
     def after(m: int) -> set[int]:
@@ -380,7 +423,7 @@ def check_dfs(run: Run, cx: Ctx) -> None:
     fn = cx.prep(cx.prog.func(f"{CG}.dfs"))
     run.analysed(fn.qual)
     cfg = CFG(fn.node, fn.file)
-    defs = single_defs(fn.node)
+    defs = cx.defs(fn)
     cur, vis, cond = fn.params[1:4]
     val = lambda e: deref(e, defs)  # noqa: E731
     returns = {n.id for n in cfg.nodes if n.kind == "stmt" and isinstance(n.ast, ast.Return)}
@@ -459,7 +502,7 @@ def check_dfs(run: Run, cx: Ctx) -> None:
         h = loops[0].id
         succ = loops[0].ast.target.id  # type: ignore[union-attr]
         entry = [m for m, lab in cfg.succ[h] if lab == "iter"]
-        body = cfg.reachable(entry, avoid=[h], edge_ok=normal)
+        body = cfg.reachable(entry, avoid=[h] + [m for m, lab in cfg.succ[h] if lab == "done"], edge_ok=normal)
         ok = not any(cfg.nodes[x].kind in ("test", "while", "for") or isinstance(cfg.nodes[x].ast, (ast.Break, ast.Continue, ast.Return))
                      for x in body)
         calls = [c for r in rec if r in body for c in node_calls(cfg, r, lambda c: method_call(c, "self", "dfs"))]
@@ -552,26 +595,28 @@ def check_emit(run: Run, cx: Ctx) -> None:
         run.analysed(fn.qual)
         short = q.split(":")[1]
         cfg = CFG(fn.node, fn.file)
-        defs = single_defs(fn.node)
+        defs = cx.defs(fn)
         parents = parent_map(fn.node)
         val = lambda e, fn=fn, defs=defs: cx.value(fn, defs, e)  # noqa: E731
         loops: list[ast.For] = []
         for c in ast.walk(fn.node):
-            if isinstance(c, ast.Call) and is_call_attr(c, "push_component_metric"):
+            if isinstance(c, ast.Call) and (is_call_attr(c, "push_component_metric") or is_call_attr(c, "push_oper")):
                 p = parents.get(c)
                 while p is not None and not isinstance(p, (ast.For, ast.AsyncFor, ast.While)):
                     p = parents.get(p)
                 if isinstance(p, ast.For) and not any(p is x for x in loops):
                     loops.append(p)
         loops.sort(key=lambda s: s.lineno)
+        heads: list[int] = []
         for k, loop in enumerate(loops):
             n += 1
             hs = cfg.nodes_of(loop)
             if len(hs) != 1:
                 raise AnalysisError(f"{fn.qual}: sum loop at line {loop.lineno} has no unique CFG node")
             h = hs[0]
+            heads.append(h)
             entry = [m for m, lab in cfg.succ[h] if lab == "iter"]
-            body = cfg.reachable(entry, avoid=[h], edge_ok=normal)
+            body = cfg.reachable(entry, avoid=[h] + [m for m, lab in cfg.succ[h] if lab == "done"], edge_ok=normal)
             # the iteration must end at the loop header (no break / return out of a half-emitted term)
             closed = all(m in body or m == h for x in body for m, lab in cfg.succ[x] if normal(x, m, lab))
             m_nodes = [x for x in body if node_calls(cfg, x, lambda c: is_call_attr(c, "push_component_metric"))]
@@ -644,11 +689,12 @@ def check_emit(run: Run, cx: Ctx) -> None:
                       f"a term's missing values are treated as `{t}` instead of `category != METER` (a silent "
                       "device counts as 0, a silent meter makes the sum unknown)", node=metrics[0], file=fn.file,
                       instance=f"{short}: sum loop #{k + 1}: nones_are_zeros is category != METER{(' (' + why + ')') if why else ''}")
+        check_guards(run, cx, fn, cfg, defs, short, heads, [t for _s, t in sources.get(short, [])])
     if n < 10:
         raise AnalysisError(f"C12.EMIT: only {n} sum loops found")
     # grid power: every grid successor of the admissible categories
     gp = cx.prep(prog.func(targets[0]))
-    defs = single_defs(gp.node)
+    defs = cx.defs(gp)
     srcs = {s for _sign, s in sources.get(targets[0].split(":")[1], [])}
     ok = len(srcs) == 1 and next(iter(srcs)) in defs
     if ok:
@@ -671,22 +717,147 @@ def check_emit(run: Run, cx: Ctx) -> None:
               "devices to subtract are searched below every grid meter",
               "devices below some grid meter are not subtracted from the consumer power", node=gw.node, file=gw.file)
     cgen = prog.func(f"{GEN}._consumer_power_formula:ConsumerPowerFormula.generate")
-    e = cx.norm(cx.folder.ret_expr(cgen), pmap(cgen))
-    ok = False
-    if isinstance(e, ast.IfExp):
+    run.analysed(cgen.qual)
+    cx.folder.mark_raise = True
+    try:
+        e = cx.norm(cx.folder.ret_expr(cgen), pmap(cgen))
+    finally:
+        cx.folder.mark_raise = False
+    ok = True
+    gs = "self._get_grid_component_successors()"
+    while ok and isinstance(e, ast.IfExp) and "RAISE" in (txt(e.body), txt(e.orelse)):
+        # a guard that refuses to generate: only for "the grid has no successors" (no valid graph)
+        ok = emptiness(bcanon(e.test, txt(e.orelse) == "RAISE")) == (gs, True)
+        e = e.orelse if txt(e.body) == "RAISE" else e.body
+    if ok and isinstance(e, ast.IfExp):
         c = bcanon(e.test)
         a, b = e.body, e.orelse
         if isinstance(c, tuple) and c[0] == "not":
             c, a, b = c[1], b, a
-        gs = "self._get_grid_component_successors()"
         ok = c == ("truthy", f"self._are_grid_meters({gs})") \
             and isinstance(a, ast.Call) and method_call(a, "self", "_gen_with_grid_meter") and not a.keywords and len(a.args) == 2 \
             and isinstance(b, ast.Call) and method_call(b, "self", "_gen_without_grid_meter") and not b.keywords and len(b.args) == 2
         if ok:
             ok = txt(a.args[1]) == gs and txt(b.args[1]) == "self._get_grid_component()" and txt(a.args[0]) == txt(b.args[0]) \
                 and isinstance(a.args[0], ast.Call) and method_call(a.args[0], "self", "_get_builder")
+    else:
+        ok = False
     run.check(ok, "C12.EMIT", cgen.qual, "grid meters present -> meters minus devices; else sum of consumers",
               "the consumer formula variant is not selected by `_are_grid_meters`", node=cgen.node, file=cgen.file)
+
+
+# generators whose formula must exist (as a constant 0) when the graph has no device of their kind: the balance
+# grid = consumer + producer + battery + EV needs every term as a stream (frozen table)
+ZERO_WHEN_EMPTY = {"ConsumerPowerFormula._gen_without_grid_meter", "ProducerPowerFormula.generate", "PVPowerFormula.generate",
+                   "BatteryPowerFormula.generate", "EVChargerPowerFormula.generate", "CHPPowerFormula.generate"}
+
+
+def check_guards(run: Run, cx: Ctx, fn: FuncInfo, cfg: CFG, defs: dict[str, ast.AST], short: str,
+                 heads: list[int], sources: list[str]) -> None:
+    """What a generator does when a collection it sums / iterates is empty, decided on CFG edges:
+      * a branch that only raises is taken for *emptiness* of an iterated collection, never for another size;
+      * in the ZERO_WHEN_EMPTY generators: the placeholder term is emitted exactly on emptiness of the summed
+        collection (or of the collection it is filled from), alone, with nones_are_zeros=True;
+      * a summed mapping that starts empty is filled on every iteration of the loop that fills it, and (battery
+        power) an inverter is entered only when all batteries behind it are requested."""
+    val = lambda e: cx.value(fn, defs, e)  # noqa: E731
+    valc = lambda e: cx.norm(deref(e, defs, containers=True))  # noqa: E731
+    fors = [n for n in cfg.nodes if n.kind == "for"]
+    iterated = {txt(loop_source(cx, fn, defs, n.ast.iter)[0]) for n in fors} | set(sources)  # type: ignore[union-attr]
+
+    def stores_into(node: ast.AST, name: str) -> list[ast.AST]:
+        out: list[ast.AST] = []
+        for x in ast.walk(node):
+            if isinstance(x, ast.Assign) and any(isinstance(t, ast.Subscript) and txt(t.value) == name for t in x.targets):
+                out.append(x)
+            elif isinstance(x, ast.Call) and isinstance(x.func, ast.Attribute) and txt(x.func.value) == name \
+                    and x.func.attr in ("add", "append", "update", "setdefault", "extend"):
+                out.append(x)
+        return out
+
+    def filled_from(src: str) -> set[str]:
+        """Collections whose elements a summed container is filled from (the loops that store into it)."""
+        out = set()
+        for n in fors:
+            if stores_into(n.ast, src):  # type: ignore[arg-type]
+                it = valc(n.ast.iter)  # type: ignore[union-attr]
+                out |= {txt(x) for x in ast.walk(it) if isinstance(x, (ast.Name, ast.Attribute, ast.Call))}
+        return out
+
+    origins = {s: filled_from(s) for s in sources}
+    placeholders = [n.id for n in cfg.nodes if n.kind == "stmt" and n.ast is not None and any(
+        txt(val((call_args(c, cx.sigs["push_component_metric"]) or {}).get("component_id", ast.Constant(None)))) == "NON_EXISTING_COMPONENT_ID"
+        for c in node_calls(cfg, n.id, lambda c: is_call_attr(c, "push_component_metric")))]
+    opers = [n.id for n in cfg.nodes if n.ast is not None and node_calls(cfg, n.id, lambda c: is_call_attr(c, "push_oper"))]
+    e_empty: list[tuple[int, int, str]] = []
+    ok_raise = True
+    for edge, test, neg in test_edges(cfg):
+        for a in facts(bcanon(val(test), neg)):
+            em = emptiness(a)
+            subj = em[0] if em else size_subject(a)
+            if subj is None:
+                continue
+            summed = subj in sources or any(subj in o for o in origins.values())
+            if em and em[1]:
+                if summed:
+                    e_empty.append(edge)
+                continue
+            m = edge[1]
+            if (subj in iterated or summed) and m != cfg.exit and cfg.path(m, [cfg.exit], edge_ok=normal) is None:
+                ok_raise = False  # refuses to generate although the collection is not empty
+    run.check(ok_raise, "C12.EMIT", fn.qual, "refuses to generate only when there is nothing to sum",
+              "a branch that only raises is taken on a size test other than emptiness of the collection that is "
+              "summed / iterated: no formula is generated for valid graphs that do have such components",
+              node=fn.node, file=fn.file, instance=f"{short}: raise-only branches are emptiness guards")
+    if short in ZERO_WHEN_EMPTY:
+        ok = bool(e_empty) and len(placeholders) >= 1
+        for p in placeholders:
+            calls = node_calls(cfg, p, lambda c: is_call_attr(c, "push_component_metric"))
+            naz = (call_args(calls[0], cx.sigs["push_component_metric"]) or {}).get("nones_are_zeros") if len(calls) == 1 else None
+            ok = ok and naz is not None and bcanon(val(naz)) == ("const", True)
+            ok = ok and not path_avoiding_edges(cfg, [cfg.entry], [p], e_empty)  # only when nothing was found
+        for _t, m, _lab in e_empty:
+            after = cfg.reachable([m], edge_ok=normal)
+            ok = ok and not (after & set(heads)) and not (after & set(opers))  # the placeholder is the whole formula
+            ok = ok and (m in placeholders or cfg.path(m, [cfg.exit], avoid=placeholders, edge_ok=normal) is None)
+        run.check(ok, "C12.EMIT", fn.qual, "nothing to sum -> the formula is the single placeholder term counted as 0",
+                  "when the generator finds no component of its kind it must emit exactly the non-existing-component "
+                  "placeholder with nones_are_zeros=True (a constant 0) and nothing else — and only then; otherwise the "
+                  "power of that kind is 0/None/missing although devices exist, or the stream is missing from the balance",
+                  node=fn.node, file=fn.file, instance=f"{short}: placeholder 0 exactly when nothing is found")
+    for src in sorted(set(sources)):
+        if src in defs and txt(defs[src]) in ("{}", "dict()", "set()"):
+            stmts = {x for n in cfg.nodes if n.kind == "stmt" and n.ast is not None and stores_into(n.ast, src) for x in [n.id]}
+            ok = bool(stmts)
+            for st in stmts:
+                inner = [f for f in fors if any(x is cfg.nodes[st].ast for x in ast.walk(f.ast))]  # type: ignore[arg-type]
+                ok = ok and bool(inner)
+                if inner:
+                    f = max(inner, key=lambda f: f.lineno)
+                    ok = ok and all(e in stmts or cfg.path(e, [f.id], avoid=stmts, edge_ok=normal) is None
+                                    for e, lab in cfg.succ[f.id] if lab == "iter")
+            why = "the summed mapping is filled on every iteration"
+            if ok and short == "BatteryPowerFormula.generate":
+                why = "an inverter is summed iff all batteries behind it are requested"
+                e_sub = []
+                for edge, test, neg in test_edges(cfg):
+                    for lit, holds in literals(valc(test), neg):
+                        if holds and isinstance(lit, ast.Call) and isinstance(lit.func, ast.Attribute) and lit.func.attr == "issubset" \
+                                and len(lit.args) == 1 and txt(lit.args[0]) == "set(self._config.component_ids)":
+                            e_sub.append((edge, txt(lit.func.value)))
+                        elif holds and isinstance(lit, ast.Compare) and len(lit.ops) == 1 and isinstance(lit.ops[0], ast.LtE) \
+                                and txt(lit.comparators[0]) == "set(self._config.component_ids)":
+                            e_sub.append((edge, txt(lit.left)))
+                for st in stmts:
+                    a = cfg.nodes[st].ast
+                    stored = txt(valc(a.value)) if isinstance(a, ast.Assign) else None
+                    good = [e for e, subset in e_sub if stored is not None and stored in subset and ".component_id" in subset]
+                    ok = ok and bool(good) and not path_avoiding_edges(cfg, [cfg.entry], [st], good)
+            run.check(ok, "C12.EMIT", fn.qual, f"summed mapping: {why}",
+                      "the mapping whose keys are summed is not filled for every element (the sum is empty / misses "
+                      "terms), or an inverter is entered although not all batteries behind it were requested (its "
+                      "power is not the power of the requested batteries)", node=fn.node, file=fn.file,
+                      instance=f"{short}: {why}")
 
 
 def category_set(c: Any, var: str) -> set[str] | None:
@@ -717,7 +888,7 @@ def subtracted_set_ok(cx: Ctx, fn: FuncInfo, summed: list[tuple[str, str]]) -> b
         return False
     gm = fn.params[2]
     cfg = CFG(fn.node, fn.file)
-    defs = single_defs(fn.node)
+    defs = cx.defs(fn)
     val = lambda e: cx.value(fn, defs, e)  # noqa: E731
     calls = cx.graph_dfs_calls(fn, defs)
     if len(calls) != 1:
@@ -733,7 +904,7 @@ def subtracted_set_ok(cx: Ctx, fn: FuncInfo, summed: list[tuple[str, str]]) -> b
     if txt(val(args[cx.dfs_params[0]])) != g or not is_empty_set(val(args[cx.dfs_params[1]])):
         return False
     entry = [m for m, lab in cfg.succ[h] if lab == "iter"]
-    body = cfg.reachable(entry, avoid=[h], edge_ok=normal)
+    body = cfg.reachable(entry, avoid=[h] + [m for m, lab in cfg.succ[h] if lab == "done"], edge_ok=normal)
     rtxt = txt(val(calls[0]))
 
     def accumulates(s: ast.AST) -> str | None:
@@ -789,6 +960,27 @@ CONTROLS = [
      "            all(graph.is_chp(c) for c in successors)\n            or all(graph.is_pv_inverter(c) for c in successors)\n            or all(graph.is_battery_inverter(c) for c in successors)\n            or all(graph.is_ev_charger(c) for c in successors)",
      "            all(\n                graph.is_chp(c) or graph.is_pv_inverter(c) or graph.is_battery_inverter(c) or graph.is_ev_charger(c)\n                for c in successors\n            )",
      "C12.METER"),
+    ("metric dropped from a sum loop", f"{GEN}._ev_charger_power_formula",
+     "                builder.push_oper(\"+\")\n            builder.push_component_metric(component_id, nones_are_zeros=True)\n",
+     "                builder.push_oper(\"+\")\n            pass\n", "C12.EMIT"),
+    ("placeholder guard inverted", f"{GEN}._pv_power_formula",
+     "        if not pv_components:\n", "        if pv_components:\n", "C12.EMIT"),
+    ("placeholder counted as unknown", f"{GEN}._chp_power_formula",
+     "                NON_EXISTING_COMPONENT_ID, nones_are_zeros=True\n", "                NON_EXISTING_COMPONENT_ID, nones_are_zeros=False\n", "C12.EMIT"),
+    ("raise guard inverted", f"{GEN}._grid_power_formula_base",
+     "        if not components:\n            raise ComponentNotFound(", "        if components:\n            raise ComponentNotFound(", "C12.EMIT"),
+    ("inverter summed although not all its batteries are requested", f"{GEN}._battery_power_formula",
+     "                if not battery_ids.issubset(component_ids):\n", "                if battery_ids.issubset(component_ids):\n", "C12.EMIT"),
+    ("PV chain searched only when ids are configured", f"{GEN}._pv_power_formula",
+     "        if component_ids:\n            pv_components = component_graph.components(", "        if not component_ids:\n            pv_components = component_graph.components(", "C12.PART"),
+    ("consumers are everything but meters and inverters", f"{GEN}._consumer_power_formula",
+     "                component.category\n                in {ComponentCategory.METER, ComponentCategory.INVERTER}",
+     "                component.category\n                not in {ComponentCategory.METER, ComponentCategory.INVERTER}", "C12.PART"),
+    ("meter fallback lookup asserts the opposite", f"{GEN}._formula_generator",
+     "        assert meter.category == ComponentCategory.METER\n", "        assert meter.category != ComponentCategory.METER\n", "C12.METER"),
+    ("pairing loop stops at the first paired device", f"{GEN}._formula_generator",
+     "                        fallbacks.setdefault(predecessor, set()).add(component)\n                        continue\n",
+     "                        fallbacks.setdefault(predecessor, set()).add(component)\n                        break\n", "C12.METER"),
 ]
 
 
@@ -814,7 +1006,8 @@ def check(run: Run, prog: Program, tier: str) -> str:
     run.floor("C12.EMIT", 20)
     from ..engine.controls import run_controls
 
-    run_controls(run, CONTROLS, run_rules, tier)
+    by_rule = {"C12.PART": check_part, "C12.METER": check_meter, "C12.DFS": check_dfs, "C12.EMIT": check_emit}
+    run_controls(run, CONTROLS, run_rules, tier, select=lambda rule: (lambda r, p: by_rule[rule](r, Ctx(p))))
     run.undecided("that these traversals produce the true totals on every valid component graph (nested meters, "
                   "mixed meters, unmetered load): a graph-algorithm correctness statement over all topologies — "
                   "enumerating graphs is a different family. Only the classification / traversal / emission "
